@@ -125,6 +125,12 @@ def compare_rasters(out, box, georef):
         ds = box.get(side)
         if ds is None or "disparity_map" not in ds.data_vars:
             continue
+        expected_files = [f"{side}_disparity.tif", f"{side}_validity_mask.tif"] + ([f"{side}_confidence_measure.tif"] if "confidence_measure" in ds.data_vars else [])
+        missing = [f for f in expected_files if not os.path.exists(os.path.join(out, f))]
+        if missing:
+            obs["values_equal_products"] = False
+            obs["missing_files"] = missing
+            continue
         with rasterio.open(os.path.join(out, f"{side}_disparity.tif")) as f:
             obs["values_equal_products"] &= same_bits(f.read(1), np.asarray(ds["disparity_map"].data, dtype=np.float32))
             obs["dtype_float32"] &= f.dtypes[0] == "float32"
@@ -191,6 +197,9 @@ def run(tier):
         if k % 4 != 0:
             pipe["refinement"] = {"refinement_method": "vfit"}
         pipe["filter"] = {"filter_method": ["median", "bilateral"][k % 2]}
+        if k % 7 in (3, 5) and not grid:
+            # coarse-to-fine run through the command-line path (with and without validation)
+            pipe["multiscale"] = {"multiscale_method": "fixed_zoom_pyramid", "num_scales": 2, "scale_factor": 2}
         if has_val:
             pipe["validation"] = {"validation_method": "cross_checking_accurate"}
             if k % 3 == 0:
